@@ -25,7 +25,7 @@ RELS = ["same", "order", "other", "single"]
 
 
 def cases(tier, seed):
-    n = 48 if tier == "quick" else 200
+    n = 48 if tier == "quick" else 800
     rng = random.Random(seed + 600)
     cs = []
     for i in range(n):
